@@ -25,7 +25,7 @@ static const Profile g_profiles[] = {
     {"C12", {90, 150, 40, 40, 15, 1, 90, 80, 5, 5, 10, 8, 5, 3, 2, 20, 10, 2, 2, 10, 80, 10, 15, 10, 25, 40, 5, 10, 10, 3, 2, 1, 5}, 20, 120, 30, 0, 0, 10},
     {"C13", {150, 30, 10, 30, 5, 2, 10, 10, 2, 2, 3, 2, 3, 1, 1, 3, 2, 1, 1, 5, 20, 5, 1, 5, 2, 10, 5, 5, 80, 2, 1, 1, 1}, 12, 60, 90, 1, 0, 20},
     {"C14", {120, 30, 5, 20, 20, 8, 10, 10, 2, 2, 10, 2, 10, 5, 3, 3, 2, 1, 1, 10, 60, 10, 1, 5, 5, 5, 60, 2, 5, 1, 1, 3, 3}, 12, 70, 30, 1, 0, 5},
-    {"C15", {40, 50, 5, 5, 2, 0, 30, 20, 5, 5, 5, 5, 3, 1, 1, 5, 3, 2, 2, 60, 60, 250, 3, 20, 3, 5, 5, 3, 3, 1, 1, 25, 2}, 20, 100, 20, 1, 0, 5},
+    {"C15", {40, 50, 5, 5, 2, 0, 30, 20, 5, 5, 5, 5, 3, 1, 1, 5, 3, 2, 2, 60, 60, 250, 3, 20, 3, 5, 5, 3, 3, 1, 6, 25, 2}, 20, 100, 20, 1, 0, 5},
     {"C16", {60, 60, 15, 10, 5, 1, 40, 30, 10, 10, 10, 10, 10, 5, 3, 10, 5, 5, 5, 10, 30, 10, 5, 5, 3, 20, 2, 60, 60, 30, 5, 1, 1}, 15, 90, 30, 0, 0, 60},
     {"C17", {40, 60, 10, 20, 10, 0, 50, 40, 5, 5, 15, 10, 20, 5, 5, 30, 25, 10, 5, 20, 80, 30, 3, 300, 5, 10, 10, 5, 5, 2, 1, 3, 3}, 20, 110, 20, 0, 1, 5},
     {"C19", {150, 40, 5, 5, 2, 3, 30, 20, 10, 10, 10, 5, 5, 3, 3, 50, 30, 10, 10, 20, 60, 20, 5, 30, 15, 10, 10, 5, 10, 2, 25, 2, 4}, 15, 100, 40, 1, 0, 10},
